@@ -56,7 +56,8 @@ def assigned_names(stmts):
             elif isinstance(base, ast.Attribute):
                 attr_stores.add(base.attr)
         elif isinstance(t, ast.Attribute):
-            attr_stores.add(t.attr)
+            # (receiver name, attribute) when the receiver is a plain name: lets the loop havoc touch only that object's field
+            attr_stores.add((t.value.id, t.attr) if isinstance(t.value, ast.Name) else t.attr)
 
     class V(ast.NodeVisitor):
         def visit_Assign(self, n):
@@ -599,7 +600,7 @@ class StmtMixin:
         mode = ctx.choose(2, "opaque-loop")
         names, mutated, attrs, calls = assigned_names([s])
         self.havoc_names(names | mutated, {}, opaque_ok=True)
-        self.havoc_fields(attrs, calls, {})
+        self.havoc_fields(attrs, calls, {}, reassigned=names)
         if mode == 0:
             self.exec_block(s.orelse)
             return
@@ -623,7 +624,7 @@ class StmtMixin:
         except _Break:
             return
         self.havoc_names(names | mutated, {}, opaque_ok=True)
-        self.havoc_fields(attrs, calls, {})
+        self.havoc_fields(attrs, calls, {}, reassigned=names)
 
     def bind_declared(self, target):
         """loop targets of an unmodelled iterable whose type the contract declares (locals) are arbitrary values of that type"""
@@ -714,7 +715,7 @@ class StmtMixin:
                 self.havoc_names({t}, decl)
             else:
                 self.env.pop(t, None)
-        self.havoc_fields(attrs, calls, spec)
+        self.havoc_fields(attrs, calls, spec, reassigned=names | loop_targets)
         for g, gty in ghosts.items():
             ctx.ghost[g] = ctx.fresh(self.ptype(gty), g)
         n = z3.Int(ctx.fresh_name(nname))
@@ -816,11 +817,19 @@ class StmtMixin:
         ctx._reach = seen
         return seen
 
-    def havoc_fields(self, attrs, calls, spec):
+    def havoc_fields(self, attrs, calls, spec, reassigned=None):
         ctx = self.ctx
         keys = set()
         reach = self.reachable_classes()
+        precise = []
         for a in attrs:
+            if isinstance(a, tuple):
+                recv = self.env.get(a[0])
+                if isinstance(recv, SV) and recv.ty.name == "Ref" and a[0] not in (reassigned or ()) \
+                        and self.field_info(recv.ty.args[0].name, a[1]) is not None:
+                    precise.append((recv, a[1]))     # obj.f = ... on an object the loop does not rebind: only obj.f changes
+                    continue
+                a = a[1]
             for cname, model in C.CLASSES.items():
                 if a in model["fields"] and cname in reach:
                     keys.add((cname, a))
@@ -850,6 +859,18 @@ class StmtMixin:
         keys = {(c, f) for c, f in keys if c in reach}
         for c, f in spec.get("havoc_fields", []):
             keys.add((c, f))
+        for recv, f in precise:
+            key, ty = self.field_info(recv.ty.args[0].name, f)
+            if ty == OPQ or any(key == self.field_info(c, f2)[0] for c, f2 in keys if self.field_info(c, f2)):
+                continue
+            arr = self.heap_array(key, ty)
+            ctx.heap[key] = z3.Store(arr, recv.t, z3.Const(ctx.fresh_name("hv_" + f), sort_of(ty)))
+            ck = (key, recv.t.sexpr())
+            if ck in ctx.field_cells:
+                cell = ctx.field_cells[ck]
+                cell.sym = SV(cell.home[2], z3.Select(ctx.heap[key], recv.t))
+                cell.conc = None
+                ctx.assume_type_inv(cell, cell.home[2])
         for cname, f in sorted(keys):
             info = self.field_info(cname, f)
             if info is None:
